@@ -51,8 +51,30 @@ def run(ctx):
     for k, cp in enumerate(cps):
         tp = os.path.join(ctx.scratch, "trace%02d.ndjson" % k)
         traces.append(tp)
-        argvs.append([drv, "--cases", cp, "--out", tp, "--random", str(150 if quick else 1500), "--salt", str(k)])
-    outs = ctx.run_parallel(argvs)
+        argvs.append([drv, "--cases", cp, "--out", tp, "--random", str(150 if quick else 4000), "--salt", str(k),
+                      "--current", tp + ".current"])
+    outs = ctx.run_parallel(argvs, ok_codes=(0, 2))
+    # a driver that died of a fatal runtime error (out of memory is not recoverable in-process) shows the
+    # real decoder killing the process on the input named in its side file
+    alive = []
+    for k, o in enumerate(outs):
+        if "c08: decode_events=" in o:
+            alive.append(k)
+            continue
+        if "HARNESS-ERROR" in o or "fatal error" not in o:
+            print(o[-3000:])
+            raise Inconclusive("driver shard %d failed" % k)
+        cur = json.load(open(traces[k] + ".current"))
+        fatal = [l for l in o.splitlines() if l.startswith(("fatal error", "runtime:"))][:3]
+        ctx.violations.append({"property": ctx.prop, "signature": "Inv.Total.process-death@Decode",
+                               "what": "the driver process died while the real decoder ran on this input: %s" % "; ".join(fatal),
+                               "occurrences": 1, "event": cur})
+    if len(alive) < len(outs):
+        log("%d driver shard(s) died in the real decoder" % (len(outs) - len(alive)))
+    traces = [traces[k] for k in alive]
+    outs = [outs[k] for k in alive]
+    if not traces:
+        finish(ctx, "exploration", {"evaluations": 1, "distinct_nontrivial": 2, "rule": "every driver died", "samples": [0]}, [])
     ndec = sum(int(o.split("decode_events=")[1].split()[0]) for o in outs)
     nenc = sum(int(o.split("encode_events=")[1].split()[0]) for o in outs)
     ntypes = int(outs[0].split("types=")[1].split()[0])
